@@ -32,14 +32,16 @@ def lines_for(log, loose, result):
     """protocol lines + expected outputs for ONE parser run (the last run in the log: after a strict failure the loose
     parser starts afresh)"""
     import feedparser.urls as U
-    # find the start of the last run
-    starts = [i for i, rec in enumerate(log) if rec["k"] == "start" and rec["pre"]["depth"] == 0 and rec["pre"]["nbase"] == 0 and rec["pre"]["nentries"] == 0]
-    begin = starts[-1] if starts else 0
-    # ns events before the first start of that run belong to it (strict: startPrefixMapping precedes startElementNS)
-    b = begin
-    while b > 0 and log[b - 1]["k"] == "ns" and not log[b - 1].get("in_start"):
-        b -= 1
+    # the last run = the records of the last parser object (after a strict failure the loose parser starts afresh)
+    pids = [rec["pid"] for rec in log if "pid" in rec]
+    if not pids:
+        return [], []
+    last = pids[-1]
+    b = next(i for i, rec in enumerate(log) if rec.get("pid") == last)
     run = log[b:]
+    begin = next((i for i in range(b, len(log)) if log[i]["k"] == "start"), None)
+    if begin is None:
+        return [], []
     first = log[begin] if log and begin < len(log) else None
     if first is None or first["k"] != "start":
         return [], []
@@ -87,7 +89,10 @@ def lines_for(log, loose, result):
             break
         i += 1
     lines.append("mix dump")
-    exp.append(canon_result(result) if not isinstance(result, Exception) else "raises " + type(result).__name__)
+    if not isinstance(result, Exception) and loose and not (result.get("feed") or result.get("entries") or result.get("version")):
+        exp.append(None)      # a loose pass without any information hands over to the JSON parser (api.py): the returned data is not this run's
+    else:
+        exp.append(canon_result(result) if not isinstance(result, Exception) else "raises " + type(result).__name__)
     return lines, exp
 
 
